@@ -138,6 +138,20 @@ Theorem no_wedge objs f clk :
   b_fail (build (rules_of true objs) f clk) = None.
 Proof. intros H1 H2. now destruct (build_rules_of objs f clk H1 H2) as [H _]. Qed.
 
+(* after clean (every object file removed; depfiles removed as well or not) the build recompiles every object *)
+Theorem clean_rebuild objs f clk :
+  objs_ok objs ->
+  (forall o, In o objs -> f (o_src o) <> None \/ In (o_src o) (o_listed o)) ->
+  (forall o, In o objs -> f (o_file o) = None) ->
+  b_fail (build (rules_of true objs) f clk) = None /\
+  b_log (build (rules_of true objs) f clk) = map o_file objs.
+Proof.
+  intros H1 H2 H3. destruct (build_rules_of objs f clk H1 H2) as (B1 & B2 & _). split; [exact B1|].
+  rewrite B2. f_equal. clear - H3. induction objs as [|o l IH]; [reflexivity|].
+  cbn [filter]. unfold stale at 1. rewrite (H3 o (or_introl eq_refl)). cbn [is_none orb].
+  f_equal. apply IH. intros o' Ho'. apply H3. now right.
+Qed.
+
 (* ------------------------------------------------------------------ the history invariant *)
 Section History.
   Variable content : Type.
@@ -273,3 +287,37 @@ Section History.
              ++ intros o2 H2 E. subst x. apply (Hsep o2 o H2 Ho). now right.
   Qed.
 End History.
+
+(* ------------------------------------------------------------------ the hypotheses are satisfiable
+   One object 10 compiled from source 2, which includes header 1; the edit modifies header 1. *)
+Definition ex_includes (_ : unit) (s : file) : list file := if s =? 2 then [1] else [].
+Definition ex_world : world unit := mkW tt (fs_of [(1, 5); (2, 6); (10, 50)]) 100 [mkObj 10 2 [2; 1]].
+Definition ex_fs' : fs := upd (w_fs ex_world) 1 100.
+
+Lemma ex_Inv : Inv unit ex_includes ex_world.
+Proof.
+  split; [|split].
+  - intros x t. cbn [ex_world w_fs w_clk fs_of].
+    destruct (x =? 1); [intros H; inversion H; lia|].
+    destruct (x =? 2); [intros H; inversion H; lia|].
+    destruct (x =? 10); [intros H; inversion H; lia|discriminate].
+  - split.
+    + cbn. constructor; [intros []|constructor].
+    + intros o o' [<-|[]] [<-|[]]. cbn. intros [H|[H|[H|[]]]]; discriminate.
+  - intros o [<-|[]]. split; [reflexivity|]. exists 50. split; [reflexivity|].
+    intros x [<-|[<-|[]]]; [exists 6|exists 5]; split; try reflexivity; lia.
+Qed.
+
+Lemma ex_edit_ok : edit_ok unit ex_includes ex_world tt ex_fs' [1].
+Proof.
+  unfold edit_ok, ex_fs'. repeat split.
+  - intros x Hx. cbn [memf existsb] in Hx. rewrite orb_false_r in Hx. unfold upd. now rewrite Hx.
+  - intros x Hx. cbn [memf existsb] in Hx. rewrite orb_false_r in Hx. right. unfold upd. now rewrite Hx.
+  - intros o [<-|[]]. reflexivity.
+  - intros o x [<-|[]] [<-|[<-|[]]]; discriminate.
+  - intros o o' [<-|[]] [<-|[]]. cbn. intros [H|[H|[]]]; discriminate.
+Qed.
+
+(* and the conclusion is not trivial on it: the object is recompiled *)
+Lemma ex_rebuild : b_log (after_build unit ex_world tt ex_fs') = [10].
+Proof. vm_compute. reflexivity. Qed.
